@@ -39,6 +39,16 @@ def witness_search(tier, seed):
             sf = SSCSimfile.blank()
             sf[k] = v                      # the same property at simfile level
             sf.charts.append(ch)
+            if k == "CREDIT" and v in ("a", None) and pos == "last":
+                # a second chart behind this one (whose note data may be empty): charts end where their note data ends
+                ch2 = SSCChart()
+                for a, b in (("STEPSTYPE", "dance-double"), ("DIFFICULTY", "Hard"), ("NOTES", "2222")):
+                    ch2[a] = b
+                sf.charts.append(ch2)
+                two = SSCSimfile(string=str(sf))
+                if [list(c.items()) for c in two.charts] != [list(c.items()) for c in sf.charts]:
+                    return dict(input=dict(charts=[items, list(ch2.items())]), detail=f"two charts serialized and parsed back as {[list(c.items()) for c in two.charts]!r}")
+                sf.charts.pop()
             try:
                 text = str(sf)
             except Exception as e:
